@@ -408,8 +408,9 @@ Lemma cap_nf_var_int v k : 1 <= k -> slen0 v < 2 ^ k ->
 Proof.
   intros Hk Hlen. unfold b_store_var_int.
   destruct (Z.eqb_spec v 0) as [->|Hne].
-  - eexists. split; [|apply cap_nf_uint; [exact Hk|apply cap_in_uint_intro; cbn [slen0 Z.eqb] in Hlen; lia]].
-    rewrite to_bits_length. reflexivity.
+  - change (slen0 0) with 0 in *.
+    eexists. split; [|apply cap_nf_uint; [exact Hk|apply cap_in_uint_intro; lia]].
+    rewrite to_bits_length. lia.
   - cbv zeta. fold (cap_sblen v). rewrite cap_slen by exact Hne.
     pose proof (cap_slen_pos v Hne) as Hs1. pose proof (cap_slen_range v Hne) as Hsr.
     eexists. split.
@@ -436,12 +437,12 @@ Proof.
     cbn [bind].
     rewrite (cap_nf_uint v len) by (try lia; try exact Hv; cbn [b_refs b_empty length]; lia).
     rewrite cap_bits_fit by
-      (cbn [b_empty b_bits app length]; rewrite !app_length, !to_bits_length; cbn [length]; lia).
+      (cbn [b_empty b_bits app length]; rewrite ?app_length, ?to_bits_length; cbn [length]; lia).
     cbn [bind b_bits b_refs b_empty app].
     unfold b_end_cell. cbn [b_bits b_refs s_depth]. change (1024 <=? 0)%N with false. cbn [bind].
     unfold b_store_cell. cbn [length].
     destruct (Nat.ltb_spec 4 (length (b_refs b) + 0)) as [Hc|_]; [lia|].
-    unfold b_store_bits.
+    change (Z.to_nat 9) with 9%nat. cbn [app]. unfold b_store_bits.
     match goal with |- context [(1023 <? ?n)%nat] => destruct (Nat.ltb_spec 1023 n) as [Ho|Hf] end;
       cbn [bind b_bits b_refs]; [reflexivity|]. rewrite app_nil_r.
     repeat rewrite <- app_assoc. reflexivity.
@@ -463,4 +464,339 @@ Proof.
           apply cap_nf_seq; [apply cap_nf_int; [lia|exact Hwc]|apply cap_nf_bytes]. }
       rewrite !app_length, cap_to_bits_signed_length, cap_bytes_to_bits_length,
         !cap_enc_length, cap_enc_bytes_length. cbn [length]. lia.
+Qed.
+
+Lemma cap_val_nf x : tval_ok x = true ->
+  (exists c, x = VRef c) \/ (exists c, x = VMaybeRef (Some c)) \/
+  exists xs, length xs = length (s_enc x) /\ s_refs_of x = [] /\ cap_nf (fun b => store1 b x) xs.
+Proof.
+  destruct x as [w v|w v|k v|k v|v|x|l|bs|c|oc|a]; cbn [tval_ok store1 s_enc s_refs_of]; intros Hok.
+  - right; right. apply andb_prop in Hok as [Hw Hin]. apply Z.leb_le in Hw.
+    eexists. split; [|split; [reflexivity|apply cap_nf_uint; eassumption]].
+    rewrite to_bits_length, cap_enc_length. reflexivity.
+  - right; right. apply andb_prop in Hok as [Hw Hin]. apply Z.leb_le in Hw.
+    eexists. split; [|split; [reflexivity|apply cap_nf_int; eassumption]].
+    rewrite cap_to_bits_signed_length, cap_enc_length. reflexivity.
+  - right; right. apply andb_prop in Hok as [Hok Hlen]. apply andb_prop in Hok as [Hk Hv].
+    apply Z.leb_le in Hk. apply Z.leb_le in Hv. apply Z.ltb_lt in Hlen.
+    destruct (cap_nf_var_uint v k Hk Hv Hlen) as (xs & Hxs & Hnf).
+    exists xs. split; [|split; [reflexivity|exact Hnf]].
+    rewrite Hxs, app_length, !cap_enc_length. reflexivity.
+  - right; right. apply andb_prop in Hok as [Hk Hlen].
+    apply Z.leb_le in Hk. apply Z.ltb_lt in Hlen.
+    destruct (cap_nf_var_int v k Hk Hlen) as (xs & Hxs & Hnf).
+    exists xs. split; [|split; [reflexivity|exact Hnf]].
+    rewrite Hxs, app_length, !cap_enc_length. reflexivity.
+  - right; right. apply andb_prop in Hok as [Hv Hlen].
+    apply Z.leb_le in Hv. apply Z.ltb_lt in Hlen.
+    assert (H4 : 1 <= 4) by lia. change 16 with (2 ^ 4) in Hlen.
+    destruct (cap_nf_var_uint v 4 H4 Hv Hlen) as (xs & Hxs & Hnf).
+    exists xs. split; [|split; [reflexivity|exact Hnf]].
+    rewrite Hxs, app_length, !cap_enc_length. reflexivity.
+  - right; right. exists [x]. split; [reflexivity|split; [reflexivity|apply cap_nf_bits]].
+  - right; right. exists l. split; [reflexivity|split; [reflexivity|apply cap_nf_bits]].
+  - right; right. exists (bytes_to_bits bs). split; [|split; [reflexivity|apply cap_nf_bytes]].
+    rewrite cap_bytes_to_bits_length, cap_enc_bytes_length. reflexivity.
+  - left. eexists; reflexivity.
+  - destruct oc as [c|]; [right; left; eexists; reflexivity|].
+    right; right. exists [false]. split; [reflexivity|split; [reflexivity|]].
+    intros b _. reflexivity.
+  - right; right. destruct (cap_nf_addr a Hok) as (xs & Hxs & Hnf).
+    exists xs. split; [exact Hxs|split; [reflexivity|exact Hnf]].
+Qed.
+
+Lemma cap_nf_fits f xs b : cap_nf f xs -> (length (b_bits b) + length xs <= 1023)%nat ->
+  (length (b_refs b) <= 4)%nat -> exists b', f b = Ok b'.
+Proof. intros Hf Hb Hr. rewrite (Hf b Hr), cap_bits_fit by exact Hb. eexists; reflexivity. Qed.
+
+Lemma cap_nf_over f xs b : cap_nf f xs -> (1023 < length (b_bits b) + length xs)%nat ->
+  (length (b_refs b) <= 4)%nat -> exists e, f b = Err e.
+Proof. intros Hf Hb Hr. rewrite (Hf b Hr), cap_bits_over by exact Hb. eexists; reflexivity. Qed.
+
+Lemma store_fits : forall b o, sop_ok o = true ->
+  (length (b_bits b) + need_bits o <= 1023)%nat -> (length (b_refs b) + need_refs o <= 4)%nat ->
+  exists b', sstep b o = Ok b'.
+Proof.
+  intros b o Hok Hb Hr. destruct o as [x|c|s|bs]; cbn [sstep sop_ok need_bits need_refs] in *.
+  - destruct (cap_val_nf x Hok) as [(c & ->)|[(c & ->)|(xs & Hxs & Hrf & Hnf)]].
+    + cbn [store1 s_refs_of length] in *. unfold b_store_ref.
+      destruct (Nat.leb_spec 4 (length (b_refs b))) as [Hc|_]; [lia|eexists; reflexivity].
+    + cbn [store1 s_enc s_refs_of length b_store_maybe_ref] in *. unfold b_store_bit.
+      rewrite cap_bits_fit by (cbn [length]; lia). cbn [bind]. unfold b_store_ref. cbn [b_refs b_bits].
+      destruct (Nat.leb_spec 4 (length (b_refs b))) as [Hc|_]; [lia|eexists; reflexivity].
+    + rewrite Hrf in Hr. cbn [length] in Hr.
+      apply (cap_nf_fits (fun b => store1 b x) xs); [exact Hnf|rewrite Hxs; exact Hb|lia].
+  - destruct c as [ty bits refs]. unfold b_store_cell.
+    destruct (Nat.ltb_spec 4 (length (b_refs b) + length refs)) as [Hc|_]; [lia|].
+    rewrite cap_bits_fit by exact Hb. cbn [bind]. eexists; reflexivity.
+  - unfold b_store_slice.
+    destruct (Nat.ltb_spec 4 (length (b_refs b) + length (s_refs s))) as [Hc|_]; [lia|].
+    rewrite cap_bits_fit by exact Hb. cbn [bind]. eexists; reflexivity.
+  - apply Nat.leb_le in Hok. unfold b_store_string.
+    destruct (Nat.ltb_spec 127 (length bs)) as [Hc|_]; [lia|]. unfold b_store_bytes.
+    rewrite cap_bits_fit by (rewrite cap_bytes_to_bits_length; exact Hb). eexists; reflexivity.
+Qed.
+
+(* The statement "forall b o, sop_ok o = true -> overflow -> exists e, sstep b o = Err e" is false for
+   a builder that already violates the limits (which no sequence of stores can produce, srun_capacity):
+   store_ref does not look at the bit count and store_bit does not look at the ref count; see
+   cap_overflow_cex1/2 below.  The builder is therefore required to be within the limits. *)
+Lemma store_overflows : forall b o,
+  (length (b_bits b) <= 1023)%nat -> (length (b_refs b) <= 4)%nat -> sop_ok o = true ->
+  (1023 < length (b_bits b) + need_bits o)%nat \/ (4 < length (b_refs b) + need_refs o)%nat ->
+  exists e, sstep b o = Err e.
+Proof.
+  intros b o Hib Hir Hok Hov. destruct o as [x|c|s|bs]; cbn [sstep sop_ok need_bits need_refs] in *.
+  - destruct (cap_val_nf x Hok) as [(c & ->)|[(c & ->)|(xs & Hxs & Hrf & Hnf)]].
+    + cbn [store1 s_enc s_refs_of length] in *. unfold b_store_ref.
+      destruct (Nat.leb_spec 4 (length (b_refs b))) as [_|Hc]; [eexists; reflexivity|lia].
+    + cbn [store1 s_enc s_refs_of length b_store_maybe_ref] in *. unfold b_store_bit.
+      destruct (b_store_bits b [true]) as [b1|e] eqn:E; cbn [bind]; [|eexists; reflexivity].
+      apply cap_bits_ok in E as [-> Hle]. cbn [length] in Hle.
+      unfold b_store_ref. cbn [b_refs].
+      destruct (Nat.leb_spec 4 (length (b_refs b))) as [_|Hc]; [eexists; reflexivity|lia].
+    + rewrite Hrf in Hov. cbn [length] in Hov.
+      apply (cap_nf_over (fun b => store1 b x) xs); [exact Hnf|rewrite Hxs; lia|exact Hir].
+  - destruct c as [ty bits refs]. unfold b_store_cell.
+    destruct (Nat.ltb_spec 4 (length (b_refs b) + length refs)) as [_|Hc]; [eexists; reflexivity|].
+    rewrite cap_bits_over by lia. eexists; reflexivity.
+  - unfold b_store_slice.
+    destruct (Nat.ltb_spec 4 (length (b_refs b) + length (s_refs s))) as [_|Hc]; [eexists; reflexivity|].
+    rewrite cap_bits_over by lia. eexists; reflexivity.
+  - unfold b_store_string.
+    destruct (Nat.ltb_spec 127 (length bs)) as [_|_]; [eexists; reflexivity|]. unfold b_store_bytes.
+    rewrite cap_bits_over by (rewrite cap_bytes_to_bits_length; lia). eexists; reflexivity.
+Qed.
+
+Lemma store_overflows_reachable : forall ops b o, srun b_empty ops = Ok b -> sop_ok o = true ->
+  (1023 < length (b_bits b) + need_bits o)%nat \/ (4 < length (b_refs b) + need_refs o)%nat ->
+  exists e, sstep b o = Err e.
+Proof.
+  intros ops b o Hrun. destruct (srun_capacity _ _ Hrun) as [Hb Hr]. apply store_overflows; assumption.
+Qed.
+
+(* counterexamples to the unguarded statement *)
+Example cap_overflow_cex1 :
+  let b := mkB (repeat true 1024) [] in let o := OVal (VRef (Cell (-1) [] [])) in
+  sop_ok o = true /\ (1023 <? length (b_bits b) + need_bits o)%nat = true /\ is_ok (sstep b o) = true.
+Proof. vm_compute. repeat split; reflexivity. Qed.
+Example cap_overflow_cex2 :
+  let c := Cell (-1) [] [] in
+  let b := mkB [] [c; c; c; c; c] in let o := OVal (VBit true) in
+  sop_ok o = true /\ (4 <? length (b_refs b) + need_refs o)%nat = true /\ is_ok (sstep b o) = true.
+Proof. vm_compute. repeat split; reflexivity. Qed.
+
+(* ------------------------------------------------------------------ *)
+(* loads consume a prefix and depend on nothing else                   *)
+(* ------------------------------------------------------------------ *)
+
+Definition cap_pfx {A} (L : slice -> result (A * slice)) : Prop :=
+  forall s v s', L s = Ok (v, s') ->
+  exists pre rpre, s_bits s = pre ++ s_bits s' /\ s_refs s = rpre ++ s_refs s' /\
+    forall tb tr, L (mkS (pre ++ tb) (rpre ++ tr)) = Ok (v, mkS tb tr).
+
+Lemma cap_pfx_ret {A} (a : A) : cap_pfx (fun s => Ok (a, s)).
+Proof.
+  intros s v s' H. inversion H. subst v s'. exists [], []. cbn [app]. auto.
+Qed.
+
+Lemma cap_pfx_err {A} e : cap_pfx (fun _ => @Err (A * slice) e).
+Proof. intros s v s' H. discriminate. Qed.
+
+Lemma cap_pfx_bind {A B} (L : slice -> result (A * slice)) (K : A -> slice -> result (B * slice)) :
+  cap_pfx L -> (forall a, cap_pfx (K a)) ->
+  cap_pfx (fun s => bind (L s) (fun p => let '(a, s1) := p in K a s1)).
+Proof.
+  intros HL HK s v s' H. apply cap_bind_ok in H as ([a s1] & H1 & H2).
+  destruct (HL _ _ _ H1) as (p1 & r1 & Hb1 & Hr1 & Hp1).
+  destruct (HK a _ _ _ H2) as (p2 & r2 & Hb2 & Hr2 & Hp2).
+  exists (p1 ++ p2), (r1 ++ r2).
+  split; [rewrite Hb1, Hb2; apply app_assoc|].
+  split; [rewrite Hr1, Hr2; apply app_assoc|].
+  intros tb tr. rewrite <- !app_assoc, Hp1. cbn [bind]. apply Hp2.
+Qed.
+
+Lemma cap_pfx_map {A B} (f : A -> B) (L : slice -> result (A * slice)) :
+  cap_pfx L -> cap_pfx (fun s => rmap (fun p => let '(v, s') := p in (f v, s')) (L s)).
+Proof.
+  intros HL s v s' H. destruct (L s) as [[a s1]|e] eqn:E; cbn [rmap] in H; [|discriminate].
+  inversion H. subst v s'. destruct (HL _ _ _ E) as (p1 & r1 & Hb1 & Hr1 & Hp1).
+  exists p1, r1. split; [exact Hb1|]. split; [exact Hr1|].
+  intros tb tr. rewrite Hp1. reflexivity.
+Qed.
+
+Lemma cap_skip_ok s n s' : s_skip s n = Ok s' ->
+  s' = mkS (skipn n (s_bits s)) (s_refs s) /\ length (firstn n (s_bits s)) = n.
+Proof.
+  unfold s_skip. destruct (Nat.ltb_spec (length (s_bits s)) n) as [Hlt|Hge]; intros H; [discriminate|].
+  inversion H. split; [reflexivity|]. rewrite firstn_length. lia.
+Qed.
+
+Lemma cap_skip_pre pre tb tr : s_skip (mkS (pre ++ tb) tr) (length pre) = Ok (mkS tb tr).
+Proof.
+  unfold s_skip. cbn [s_bits s_refs]. rewrite app_length.
+  destruct (Nat.ltb_spec (length pre + length tb) (length pre)) as [Hlt|Hge]; [lia|].
+  rewrite cap_skipn_app. reflexivity.
+Qed.
+
+Lemma cap_pfx_uint n : cap_pfx (fun s => s_load_uint s n).
+Proof.
+  intros s v s' H. unfold s_load_uint in H.
+  apply cap_bind_ok in H as (v0 & Hv & H). apply cap_bind_ok in H as (s0 & Hs & H).
+  inversion H. subst v0 s0. apply cap_skip_ok in Hs as [-> Hlen]. unfold s_preload_uint in Hv.
+  exists (firstn n (s_bits s)), []. cbn [s_bits s_refs app].
+  split; [symmetry; apply firstn_skipn|]. split; [reflexivity|].
+  intros tb tr.
+  assert (Hp : s_load_uint (mkS (firstn n (s_bits s) ++ tb) tr) (length (firstn n (s_bits s)))
+               = Ok (v, mkS tb tr)).
+  { unfold s_load_uint, s_preload_uint. cbn [s_bits]. rewrite cap_firstn_app, Hv. cbn [bind].
+    rewrite cap_skip_pre. reflexivity. }
+  rewrite Hlen in Hp. exact Hp.
+Qed.
+
+Lemma cap_pfx_int n : cap_pfx (fun s => s_load_int s n).
+Proof.
+  intros s v s' H. unfold s_load_int in H.
+  apply cap_bind_ok in H as (v0 & Hv & H). apply cap_bind_ok in H as (s0 & Hs & H).
+  inversion H. subst v0 s0. apply cap_skip_ok in Hs as [-> Hlen]. unfold s_preload_int in Hv.
+  exists (firstn n (s_bits s)), []. cbn [s_bits s_refs app].
+  split; [symmetry; apply firstn_skipn|]. split; [reflexivity|].
+  intros tb tr.
+  assert (Hp : s_load_int (mkS (firstn n (s_bits s) ++ tb) tr) (length (firstn n (s_bits s)))
+               = Ok (v, mkS tb tr)).
+  { unfold s_load_int, s_preload_int. cbn [s_bits]. rewrite cap_firstn_app, Hv. cbn [bind].
+    rewrite cap_skip_pre. reflexivity. }
+  rewrite Hlen in Hp. exact Hp.
+Qed.
+
+Lemma cap_pfx_bits n : cap_pfx (fun s => s_load_bits s n).
+Proof.
+  intros s v s' H. unfold s_load_bits in H.
+  apply cap_bind_ok in H as (s0 & Hs & H).
+  inversion H. subst v s0. apply cap_skip_ok in Hs as [-> Hlen]. unfold s_preload_bits.
+  exists (firstn n (s_bits s)), []. cbn [s_bits s_refs app].
+  split; [symmetry; apply firstn_skipn|]. split; [reflexivity|].
+  intros tb tr.
+  assert (Hp : s_load_bits (mkS (firstn n (s_bits s) ++ tb) tr) (length (firstn n (s_bits s)))
+               = Ok (firstn n (s_bits s), mkS tb tr)).
+  { unfold s_load_bits, s_preload_bits. cbn [s_bits]. rewrite cap_firstn_app, cap_skip_pre.
+    reflexivity. }
+  rewrite Hlen in Hp. exact Hp.
+Qed.
+
+Lemma cap_pfx_bytes n : cap_pfx (fun s => s_load_bytes s n).
+Proof.
+  intros s v s' H. unfold s_load_bytes in H.
+  apply cap_bind_ok in H as (s0 & Hs & H).
+  inversion H. subst v s0. apply cap_skip_ok in Hs as [-> Hlen]. unfold s_preload_bytes.
+  exists (firstn (n * 8) (s_bits s)), []. cbn [s_bits s_refs app].
+  split; [symmetry; apply firstn_skipn|]. split; [reflexivity|].
+  intros tb tr. unfold s_load_bytes, s_preload_bytes. cbn [s_bits].
+  remember (firstn (n * 8) (s_bits s)) as pre eqn:Hpre. rewrite <- Hlen.
+  rewrite cap_firstn_app, cap_skip_pre. reflexivity.
+Qed.
+
+Lemma cap_pfx_bit : cap_pfx s_load_bit.
+Proof.
+  intros [bits refs] v s' H. unfold s_load_bit, s_preload_bit, s_skip in H. cbn [s_bits s_refs] in H.
+  destruct bits as [|x rest]; cbn [bind length skipn] in H; [discriminate|].
+  destruct (Nat.ltb_spec (S (length rest)) 1) as [Hlt|_]; [lia|]. cbn [bind] in H.
+  inversion H. subst v s'. exists [x], []. cbn [s_bits s_refs app].
+  split; [reflexivity|]. split; [reflexivity|]. intros tb tr.
+  unfold s_load_bit, s_preload_bit, s_skip. cbn [s_bits s_refs bind length skipn].
+  destruct (Nat.ltb_spec (S (length tb)) 1) as [Hlt|_]; [lia|]. reflexivity.
+Qed.
+
+Lemma cap_pfx_ref : cap_pfx s_load_ref.
+Proof.
+  intros [bits refs] v s' H. unfold s_load_ref in H. cbn [s_bits s_refs] in H.
+  destruct refs as [|r rs]; [discriminate|]. inversion H. subst v s'.
+  exists [], [r]. cbn [s_bits s_refs app]. auto.
+Qed.
+
+Lemma cap_pfx_var signed bl : cap_pfx (fun s => s_load_var signed s bl).
+Proof.
+  unfold s_load_var. apply cap_pfx_bind; [apply cap_pfx_uint|].
+  intros len. cbv beta. destruct (len =? 0); [apply cap_pfx_ret|].
+  destruct signed; [apply cap_pfx_int|apply cap_pfx_uint].
+Qed.
+
+Lemma cap_pfx_maybe_ref : cap_pfx s_load_maybe_ref.
+Proof.
+  unfold s_load_maybe_ref. apply cap_pfx_bind; [apply cap_pfx_bit|].
+  intros x. cbv beta. destruct x; [|apply cap_pfx_ret].
+  apply cap_pfx_bind; [apply cap_pfx_ref|]. intros r. apply cap_pfx_ret.
+Qed.
+
+Lemma cap_pfx_address : cap_pfx s_load_address.
+Proof.
+  unfold s_load_address. apply cap_pfx_bind; [apply cap_pfx_uint|].
+  intros tag. cbv beta. destruct (tag =? 0); [apply cap_pfx_ret|].
+  destruct (tag =? 1).
+  - apply cap_pfx_bind; [apply cap_pfx_uint|]. intros len. cbv beta.
+    apply cap_pfx_bind; [apply cap_pfx_uint|]. intros v. apply cap_pfx_ret.
+  - apply cap_pfx_bind; [apply cap_pfx_bit|]. intros anyc. cbv beta.
+    apply cap_pfx_bind.
+    + destruct anyc; [|apply cap_pfx_ret].
+      apply cap_pfx_bind; [apply cap_pfx_uint|]. intros depth. cbv beta.
+      destruct (depth <? 1); [apply cap_pfx_err|].
+      apply cap_pfx_bind; [apply cap_pfx_uint|]. intros pfx. apply cap_pfx_ret.
+    + intros ac. cbv beta. destruct (tag =? 2); [|apply cap_pfx_err].
+      apply cap_pfx_bind; [apply cap_pfx_int|]. intros wc. cbv beta.
+      apply cap_pfx_bind; [apply cap_pfx_bytes|]. intros h. apply cap_pfx_ret.
+Qed.
+
+Lemma cap_pfx_load1 t : cap_pfx (fun s => load1 s t).
+Proof.
+  destruct t as [w|w|k|k| | |n|n| | |]; cbn [load1]; apply cap_pfx_map.
+  - apply cap_pfx_uint.
+  - apply cap_pfx_int.
+  - apply (cap_pfx_var false).
+  - apply (cap_pfx_var true).
+  - apply (cap_pfx_var false).
+  - apply cap_pfx_bit.
+  - apply cap_pfx_bits.
+  - apply cap_pfx_bytes.
+  - apply cap_pfx_ref.
+  - apply cap_pfx_maybe_ref.
+  - apply cap_pfx_address.
+Qed.
+
+Lemma load_consumes_prefix : forall s t v s', load1 s t = Ok (v, s') ->
+  exists pre rpre, s_bits s = pre ++ s_bits s' /\ s_refs s = rpre ++ s_refs s' /\
+                   load1 (mkS pre rpre) t = Ok (v, mkS [] []).
+Proof.
+  intros s t v s' H. destruct (cap_pfx_load1 t s v s' H) as (pre & rpre & Hb & Hr & Hp).
+  exists pre, rpre. split; [exact Hb|]. split; [exact Hr|].
+  specialize (Hp [] []). rewrite !app_nil_r in Hp. exact Hp.
+Qed.
+
+(* ------------------------------------------------------------------ *)
+(* reading past the end raises                                         *)
+(* ------------------------------------------------------------------ *)
+
+Lemma cap_skip_err s n : (length (s_bits s) < n)%nat -> s_skip s n = Err EUnderflow.
+Proof.
+  intros Hlt. unfold s_skip.
+  destruct (Nat.ltb_spec (length (s_bits s)) n) as [_|Hge]; [reflexivity|lia].
+Qed.
+
+Lemma overread_raises : forall s,
+  (forall n, (length (s_bits s) < n)%nat ->
+     (exists e, s_load_bits s n = Err e) /\ (exists e, s_load_uint s n = Err e) /\
+     (exists e, s_load_int s n = Err e)) /\
+  (forall n, (length (s_bits s) < n * 8)%nat -> exists e, s_load_bytes s n = Err e) /\
+  (s_bits s = [] -> exists e, s_load_bit s = Err e) /\
+  (s_refs s = [] -> exists e, s_load_ref s = Err e).
+Proof.
+  intros s. split; [|split; [|split]].
+  - intros n Hlt. split; [|split].
+    + unfold s_load_bits. rewrite cap_skip_err by exact Hlt. eexists; reflexivity.
+    + unfold s_load_uint. destruct (s_preload_uint s n) as [v|e]; cbn [bind];
+        [rewrite cap_skip_err by exact Hlt|]; eexists; reflexivity.
+    + unfold s_load_int. destruct (s_preload_int s n) as [v|e]; cbn [bind];
+        [rewrite cap_skip_err by exact Hlt|]; eexists; reflexivity.
+  - intros n Hlt. unfold s_load_bytes. rewrite cap_skip_err by exact Hlt. eexists; reflexivity.
+  - intros Hnil. unfold s_load_bit, s_preload_bit. rewrite Hnil. eexists; reflexivity.
+  - intros Hnil. unfold s_load_ref. rewrite Hnil. eexists; reflexivity.
 Qed.
